@@ -164,8 +164,9 @@ inductive Dict
   | empty
   deriving Repr, DecidableEq
 
-/-- what one run of the `POST` getter leaves in the environ (`ombott.request.files`,
-`ombott.request.forms`) and how it ends -/
+/-- the local `files` / `forms` mappings of one run of the `POST` getter when it ends, and how it
+ends.  They are published in the environ (`ombott.request.files`, `ombott.request.forms`) only
+when the whole body was processed (`runPost`): a failed run leaves nothing behind. -/
 structure PostRun where
   files : Dict
   forms : Option Dict
@@ -237,11 +238,11 @@ def runPost (cfg : Cfg) (jl : JLoads) (req : Req) (c : Cache) : Cache × Except 
       | .ok j => some j
       | .error _ => c.json
     else c.json
-  let c' : Cache := { c with json := jc, files := some r.files,
-                             forms := match r.forms with | some f => some f | none => c.forms }
   match r.result with
-  | .ok d => ({ c' with post := some d }, .ok d)
-  | .error e => (c', .error e)
+  | .ok d =>
+    ({ c with json := jc, post := some d, files := some r.files,
+              forms := match r.forms with | some f => some f | none => c.forms }, .ok d)
+  | .error e => ({ c with json := jc }, .error e)
 
 /-- `self.POST` inside `forms` / `files`: the cached mapping, or a run of the getter -/
 def ensurePost (cfg : Cfg) (jl : JLoads) (req : Req) (c : Cache) : Cache × Except Exc Dict :=
